@@ -336,7 +336,8 @@ class Exporter:
                 if not body:
                     continue
                 minrec = sum((1 if l == 65535 else l) for _, l, _ in fs)
-                pad = rng.randrange(0, min(4, max(1, minrec))) if rng.random() < 0.4 else 0
+                # RFC 7011 3.3.2: padding is shorter than any allowable record (not only 0-3 octets)
+                pad = rng.randrange(0, min(16, max(1, minrec))) if rng.random() < 0.4 else 0
                 out.append((self.ix_set(tid, body, pad=pad), ("D" if kind == "t" else "OD", tid, nrec)))
         return out
 
@@ -594,10 +595,17 @@ def v9_template_then_data(rng, ex, tid=None):
     tp = v9_pkt([ex.flowset(0, ex.v9_template_record(tid, fs), pad=0)])
     nrec = rng.choice([1, 2, 5])
     dp_sets = []
-    if rng.random() < 0.4 and ex.v9_t:
-        # a decodable flowset before the unknown one
-        pass
+    k = rng.random()
+    if k < 0.5:
+        # decodable flowsets before the one under test: a template for another id, and data for it
+        oid = tid + 1 if tid < 65535 else 256
+        _o, ofs = ex.v9_template(oid)
+        dp_sets.append(ex.flowset(0, ex.v9_template_record(oid, ofs), pad=0))
+        if sum(l for _, l in ofs) > 0 and k < 0.3:
+            dp_sets.append(ex.flowset(oid, ex.v9_record(ofs)))
     dp_sets.append(ex.flowset(tid, b"".join(ex.v9_record(fs) for _ in range(nrec))))
+    if rng.random() < 0.2:
+        dp_sets.append(ex.flowset(0, ex.v9_template_record(tid + 2 if tid < 65530 else 300, [(1, 4)]), pad=0))
     dp = v9_pkt(dp_sets)
     return tp, dp, tid, nrec
 
@@ -610,4 +618,9 @@ def ix_template_then_data(rng, ex, tid=None):
     if not body:
         body = b"\x00"
     dset = ex.ix_set(tid, body)
+    if rng.random() < 0.5:
+        # a decodable set before the one under test, in the same message
+        oid = tid + 1 if tid < 65535 else 256
+        _o, ofs = ex.ix_template(oid)
+        dset = ex.ix_set(2, be(oid, 2) + be(len(ofs), 2) + b"".join(ex.ix_fspec(f) for f in ofs)) + dset
     return ipfix_msg([tset]), dset, tid, nrec
